@@ -84,6 +84,17 @@ pub fn fp(s: &str) -> String {
     format!("{:016x}", fnv(s.as_bytes()))
 }
 
+// ---------------------------------------------------------------- quarantines (process-wide copy of --quarantine)
+
+static QUARANTINE: std::sync::OnceLock<BTreeSet<String>> = std::sync::OnceLock::new();
+pub fn set_quarantine(q: &BTreeSet<String>) {
+    let _ = QUARANTINE.set(q.clone());
+}
+/// is the named defect class listed in KNOWN_FINDINGS (passed by the driver)?
+pub fn q(name: &str) -> bool {
+    QUARANTINE.get().is_some_and(|s| s.contains(name))
+}
+
 // ---------------------------------------------------------------- args
 
 #[derive(Clone, Debug)]
